@@ -54,6 +54,8 @@ CORPUS = [
     ({"main": "fn main() { " + " ".join(f"let u{i} = {i};" for i in range(170)) + " println(42); }\n" + "\n".join(f"fn q{i}(p{i}: int) {{ }}" for i in range(40))}, "many-warnings"),
     ({"main": "import { " + ", ".join(f"f{i}" for i in range(60)) + " } from lib;\nfn main() { " + " ".join(f"let w{i} = {i};" for i in range(70)) + " println(f0(1) + f1(2)); }",
       "lib": "\n".join(f"pub fn f{i}(n: int) -> int {{ let z{i} = n; n + {i} }}" for i in range(60)) + "\nfn main() { }"}, "many-warnings-modules"),
+    # parse_json of an object with SEVERAL numbers beyond the float range: which one the error names
+    ({"main": 'fn main() { try { let o = "{\\"a\\": 1e999, \\"b\\": 3e999, \\"c\\": 5e999, \\"d\\": 7e999, \\"e\\": [9e999]}".parse_json() as { ? }; println("no", o); } catch e { println(e.message); } }'}, "parse-json-several-out-of-range"),
     # to_json of an object with SEVERAL fields that cannot be encoded: which one the error names
     ({"main": 'fn helper() { }\nfn main() { println(new { name: "x", window: 1..5, action: helper, zed: 2..3, yy: helper }.to_json()); }'}, "to-json-several-unencodable"),
     ({"main": 'fn helper() { }\nfn main() { let d = new { ? }; d.set("w", 1..2); d.set("a", helper); d.set("b", 3..4); d.set("c", [helper]); println(d.to_json_indent()); }'}, "to-json-several-unencodable"),
